@@ -21,6 +21,9 @@ def gen(r, n):
                     retry_companion=dict(delay=30), sigs=[(1.5, "TERM"), (3.5, "INT")]))
     scs.append(dict(u=150, period=20, ta=None, grace=10, leak=0.7, dur=14, on_term="ignore",
                     retry_companion=dict(delay=30), sigs=[(2.5, "INT"), (4.5, "TERM")]))
+    # while draining leaked handles: the signal changes neither the verdict nor the wait
+    scs.append(dict(u=150, period=20, ta=None, grace=2, leak=2, dur=1.5, hold=6, on_term="exit", sigs=[(2.5, "INT")]))
+    scs.append(dict(u=150, period=20, ta=None, grace=2, leak=3, dur=0.5, hold=7, on_term="exit", sigs=[(1.5, "TERM")]))
     # during a timeout grace period
     scs.append(dict(u=150, period=1, ta=1, grace=4, leak=0.7, dur=12, on_term="ignore", sigs=[(2.5, "TERM")]))
     while len(scs) < n:
@@ -47,7 +50,7 @@ def run(tier, seed):
     ok, msg = U.regen_table()
     if not ok:
         chk.violation("broken-obligation", "pause-table-translator", dict(error=msg), no_input=True)
-    gate = vlib.coq_gate(PROP)
+    gate = vlib.coq_gate(PROP, extra_targets=["Model/UnitEnv.vo", "gen/GenPauseTable.vo"])
     vlib.gate_or_violation(chk, gate)
     try:
         rig = e2e.Rig()
